@@ -19,6 +19,9 @@ func stringify(v *Val, inProcess util.PtrSet) string {
 			return fmt.Sprintf("recursive-val %s@%p", v.Type, v)
 		} else {
 			inProcess.Add(v)
+			// only values on the current path are "in process": a value that is
+			// merely shared between two positions is not recursive
+			defer inProcess.Del(v)
 		}
 	}
 
